@@ -54,6 +54,14 @@ class Simplifier(walkers.dag.DagWalker):
             fnode = self.manager.Real(Fraction(value))
         return fnode
 
+    def _has_no_objects(self, type: "up.model.types.Type") -> bool:
+        """True when the problem is known and has no object of the given type: a
+        quantifier over such a type is vacuous (Forall is true, Exists is false) also
+        when its variable is unused, so the variable must not be dropped."""
+        if self.problem is None:
+            return False
+        return next(iter(self.problem.objects(type)), None) is None
+
     def _simplify_rebuilt(self, expression: FNode) -> FNode:
         """Simplifies an expression built inside a walk_* method; walk() is not
         re-entrant, so a nested simplifier with the same settings is used."""
@@ -191,7 +199,11 @@ class Simplifier(walkers.dag.DagWalker):
         free_vars: FrozenSet["up.model.variable.Variable"] = (
             self.environment.free_vars_oracle.get_free_variables(args[0])
         )
-        vars = [var for var in expression.variables() if var in free_vars]
+        vars = [
+            var
+            for var in expression.variables()
+            if var in free_vars or self._has_no_objects(var.type)
+        ]
         # Here we check if the arg is in the form:
         # phi(l_i) and l_i == x with phi and x general formulae and l_i a variable
         # bounded to this Exists.
@@ -242,7 +254,11 @@ class Simplifier(walkers.dag.DagWalker):
         free_vars: FrozenSet["up.model.variable.Variable"] = (
             self.environment.free_vars_oracle.get_free_variables(args[0])
         )
-        vars = tuple(var for var in expression.variables() if var in free_vars)
+        vars = tuple(
+            var
+            for var in expression.variables()
+            if var in free_vars or self._has_no_objects(var.type)
+        )
         if len(vars) == 0:
             return args[0]
         return self.manager.Forall(args[0], *vars)
